@@ -6,6 +6,8 @@ Core-only (no Mathlib needed).
 -/
 import SqiModel.VerifyAccess
 
+set_option autoImplicit false
+
 namespace SqiModel.Verify
 set_option linter.unusedSimpArgs false
 
